@@ -190,10 +190,14 @@ def run(tier):
         ("CCCO.|250|CC(C)O.|750|", 1000.0, [0.25, 0.75]),
         ("CCCO.|250|CC(C)O.|750|", 800.0, [0.3125, 0.9375]),
         ("CCCO.|40%|CC(C)O", 500.0, [0.4, 0.6]),
+        # a trace component: the written values declare shares at the parts-per-billion scale (compared with the floats handed to the generator)
+        ("CCCO.|99.9999986%|CC(C)O.|4|", None, [0.999999986, 1.4e-8]),
+        ("CCCO.|99.9999996%|CC(C)O", 1e9, [0.999999996, 4e-9]),
+        ("CCCO.|99.99999%|CC(C)O.|0.00001%|", 1e6, [0.9999999, 1e-7]),
     ]
     for text, S_, declared in supplied:
         try:
-            sysobj = g.System(text, S_)
+            sysobj = g.System(text, S_) if S_ is not None else g.System(text)
             if not sysobj.generable:
                 continue
         except Exception:
@@ -210,8 +214,8 @@ def run(tier):
             if ev is None:
                 continue
             n_sup += 1
-            p = [n / d if d > 0 else -1 for n, d in ev["p"]]
-            if len(p) != len(declared) or any(abs(a - b) > 1e-9 for a, b in zip(p, declared)):
+            p = rng.raw_p[next(i for i, e in enumerate(e_ for e_ in rng.events if e_["kind"] == "choice") if e is ev)]
+            if len(p) != len(declared) or any(abs(a - b) > 1e-9 or abs(a - b) > 1e-6 * b for a, b in zip(p, declared)):
                 v.violation("C14:pick-law-is-not-the-written-fraction:supplied-system-mass",
                             f"System({text!r}, {S_}) ({mode}) is accepted and picks its components with p={p}; the written values declare the fractions {declared} "
                             f"(percentage / 100, absolute mass / system mass)", {"system": text, "system_mass": S_})
